@@ -51,7 +51,7 @@ Global Instance lex_np_spec ls src ln : Spec (lex ls src ln) (np (lex ls src ln)
 (* ------------------------------------------------------------------------------------------ *)
 Ltac np_start :=
   lazymatch goal with
-  | |- np ?x => let X := fresh "X" in let H := fresh "H" in remember x as X eqn:H; symmetry in H
+  | |- ?P ?x => let X := fresh "X" in let H := fresh "H" in remember x as X eqn:H; symmetry in H
   end.
 Ltac np_end H := try harvest H; subst; try exact I; try assumption.
 
@@ -152,3 +152,102 @@ Proof.
   unfold compile. pose proof (run_source_np src) as R. destruct (run_source src) as [s| | |] eqn:E; cbn [bind]; try reflexivity; [|exact R].
   destruct (generate_value s (proj1 (run_source_inv src s E))) as [bs G]. rewrite G. cbn [bind]. exists s. reflexivity.
 Qed.
+
+(* ------------------------------------------------------------------------------------------ *)
+(* 4. fuel: a token program without loops, macro calls and PLAY, nested less deep than the depth *)
+(*    fuel and shorter (at every level) than the step fuel, is executed without OutOfFuel       *)
+(* ------------------------------------------------------------------------------------------ *)
+Definition tok_fuel_ok (rec : list tok -> bool) (t : tok) : bool :=
+  match t with
+  | TDiv _ _ ch => rec ch
+  | TSub ch => rec ch
+  | TValue _ _ _ | TPlay _ _ => false      (* lexed and executed at run time: the work they request is not bounded here *)
+  | _ => true
+  end.
+Fixpoint fuel_ok (d steps : nat) (toks : list tok) : bool :=
+  match d with
+  | O => false
+  | S d' => loop_free toks && (length toks <? steps)%nat && forallb (tok_fuel_ok (fuel_ok d' steps)) toks
+  end.
+
+Lemma emit_note_nf s ev nl lettered slur : nf (emit_note s ev nl lettered slur).
+Proof. np_start. unfold emit_note in H. repeat brk H. all: np_end H. Qed.
+Lemma exec_note_nf s base flag natural len qlen vel timing oct slur : nf (exec_note s base flag natural len qlen vel timing oct slur).
+Proof.
+  assert (ENS : forall s ev nl lettered slur, Spec (emit_note s ev nl lettered slur) (nf (emit_note s ev nl lettered slur))) by exact emit_note_nf.
+  np_start. unfold exec_note in H. repeat brk H. all: np_end H.
+Qed.
+Lemma exec_note_n_nf s no len qlen vel timing slur : nf (exec_note_n s no len qlen vel timing slur).
+Proof.
+  assert (ENS : forall s ev nl lettered slur, Spec (emit_note s ev nl lettered slur) (nf (emit_note s ev nl lettered slur))) by exact emit_note_nf.
+  np_start. unfold exec_note_n in H. repeat brk H. all: np_end H.
+Qed.
+
+Section ExecNF.
+Variable ec : list tok -> res song -> res song.
+Variable rec : list tok -> bool.
+Hypothesis ec_nf : forall ch s, rec ch = true -> s_break_flag s = 0 -> nf (ec ch (Ok s)).
+
+Lemma step_song_nf t s : tok_fuel_ok rec t = true -> s_break_flag s = 0 -> nf (step_song ec t s).
+Proof.
+  assert (ENS : forall s base flag natural len qlen vel timing oct slur,
+            Spec (exec_note s base flag natural len qlen vel timing oct slur) (nf (exec_note s base flag natural len qlen vel timing oct slur)))
+    by exact exec_note_nf.
+  assert (ENN : forall s no len qlen vel timing slur,
+            Spec (exec_note_n s no len qlen vel timing slur) (nf (exec_note_n s no len qlen vel timing slur)))
+    by exact exec_note_n_nf.
+  intros T B. destruct t; cbn [tok_fuel_ok] in T; try discriminate T.
+  all: try (np_start; cbn [step_song] in H; repeat brk H; np_end H; fail).
+  - cbn [step_song]. match goal with |- context [ec ?X (Ok ?x)] => pose proof (ec_nf X x T B) as Q; destruct (ec X (Ok x)) end; exact Q || exact I.
+  - cbn [step_song]. match goal with |- context [ec ?X (Ok ?x)] => pose proof (ec_nf X x T B) as Q; destruct (ec X (Ok x)) end; exact Q || exact I.
+Qed.
+End ExecNF.
+
+Definition flag0 (r : res song) : Prop := flag_kept 0 r.
+Lemma fold_steps_nf ec rec :
+  (forall ch s, rec ch = true -> s_break_flag s = 0 -> nf (ec ch (Ok s))) -> keeps_break_flag ec ->
+  forall toks r, forallb (tok_fuel_ok rec) toks = true -> nf r -> flag_kept 0 r -> nf (fold_steps ec toks r).
+Proof.
+  intros Hec Hk. induction toks as [|t rest IH]; intros r HT Hr Hf; [exact Hr|].
+  cbn [forallb] in HT. apply andb_prop in HT. destruct HT as [Ht Hrest].
+  change (fold_steps ec (t :: rest) r) with (fold_steps ec rest (step_tok ec t r)).
+  apply IH; [exact Hrest| |apply step_tok_flag_kept; [exact Hk|exact Hf]].
+  destruct r as [s| | |]; cbn [step_tok bind]; try exact Hr; try exact I.
+  apply (step_song_nf ec rec Hec t s Ht Hf).
+Qed.
+
+Theorem exec_f_nf steps : forall d toks s,
+  fuel_ok d steps toks = true -> s_break_flag s = 0 -> nf (exec_f d steps toks (Ok s)).
+Proof.
+  induction d as [|d IH]; intros toks s H B; [discriminate H|].
+  cbn [fuel_ok] in H. apply andb_prop in H. destruct H as [H H3]. apply andb_prop in H. destruct H as [H1 H2].
+  apply Nat.ltb_lt in H2. rewrite (exec_f_loopfree d steps toks s H1 H2 B).
+  apply (fold_steps_nf (exec_f d steps) (fuel_ok d steps)); [exact IH|apply exec_f_keeps_break_flag|exact H3|exact I|exact B].
+Qed.
+
+Corollary exec_f_no_outoffuel : forall (steps depth : nat) (toks : list tok) (s : song),
+  fuel_ok depth steps toks = true -> s_break_flag s = 0 -> exec_f depth steps toks (Ok s) <> OutOfFuel.
+Proof. intros steps depth toks s H B E. pose proof (exec_f_nf steps depth toks s H B) as Q. rewrite E in Q. exact Q. Qed.
+
+(* the computable premise on a source: no '$' (lex_safe from the initial state), and the token program the lexer makes of it
+   is loop-free, macro-free, PLAY-free, nested less deep than S (length src) and shorter at every level than STEPS *)
+Definition compile_fuel_ok (src : list Z) : bool :=
+  forallb nodollar src &&
+  match lex (mkLex 96 [] init_vars rhythm_rows) src 0 with
+  | Ok (toks, _) => fuel_ok (S (length src)) STEPS toks
+  | _ => true
+  end.
+Theorem compile_fuel_partial src : compile_fuel_ok src = true -> compile src <> OutOfFuel.
+Proof.
+  unfold compile_fuel_ok. intros H. apply andb_prop in H. destruct H as [H1 H2].
+  pose proof (compile_outcomes src) as O. destruct (compile src) eqn:C; try discriminate. intros _.
+  unfold run_source in O. pose proof (lex_terminates_initial src 0 H1) as [L _].
+  destruct (lex (mkLex 96 [] init_vars rhythm_rows) src 0) as [[toks ls]| | |]; cbn [bind] in O; try discriminate; [|exact (L eq_refl)].
+  pose proof (exec_f_nf STEPS (S (length src)) toks (song_after_lex ls) H2 eq_refl) as Q. rewrite O in Q. exact Q.
+Qed.
+Example compile_fuel_example :
+  compile_fuel_ok (zs "l8 o5 c d {ceg}4 Sub{d4 r} 'ce' TR(2) y7,100 v.onTime(0,127,!1) Rhythm{bshb}") = true.
+Proof. vm_compute. reflexivity. Qed.
+Example compile_fuel_example_value :
+  exists bytes log, compile (zs "l8 o5 c d {ceg}4 Sub{d4 r} 'ce' TR(2) y7,100 v.onTime(0,127,!1) Rhythm{bshb}") = Ok (bytes, log).
+Proof. vm_compute. do 2 eexists. reflexivity. Qed.
